@@ -29,7 +29,7 @@ func init() {
 			{Name: "dir-histories", Fn: scnC20, Weight: 1},
 		},
 		Rule: "initial directory with 0-12 rotated files audit.log.N (N up to 999, non-contiguous, incl. >= 10 files and two/three-digit suffixes) plus the live file, 0-5 lines each, optional partial tail; " +
-			"then 1-25 operations from {append k complete lines, append a prefix of a line, complete it, rotate (rename chain + create), truncate to zero, append a line longer than the read buffer}, " +
+			"then 1-25 operations from {append k complete lines, append a prefix of a line, complete it, rotate (rename chain + create), truncate to zero, append a line longer than the read buffer, an event (write/create/chmod/remove/rename) for another file of the directory incl. rotated siblings audit.log.N / .gz / .bak}, " +
 			"each followed by its file-system events and a run to quiescence; read-buffer knob {16,64,4096}; a consumer task drains Lines(); " +
 			"non-trivial = at least one rotation or truncation or partial append and at least 2 rotated files; distinct = distinct (history hash, schedule hash)",
 		Quick: 8000, Thorough: 250000,
@@ -384,9 +384,19 @@ func scnC20(rc *RunCtx) {
 				rc.Abort("event not consumed: %v", rc.Sim.Live())
 				return
 			}
-		default: // unrelated event
-			ops = append(ops, "unrelated-event")
-			deliver([]fsnotify.Op{fsnotify.Write, fsnotify.Create, fsnotify.Chmod}[t.Choose(3, "uop")], dir+"/other.log")
+		default: // an event for another file of the directory: an unrelated log, or a rotated sibling
+			// of the live file being compressed, deleted or renamed by the rotation tool
+			name := []string{"/other.log", "/audit.log.1", "/audit.log.2", "/audit.log.1.gz", "/audit.log.bak", "/audit.log.10"}[t.Choose(6, "uname")]
+			op := []fsnotify.Op{fsnotify.Write, fsnotify.Create, fsnotify.Chmod, fsnotify.Remove, fsnotify.Rename}[t.Choose(5, "uop")]
+			if op == fsnotify.Remove || op == fsnotify.Rename {
+				delete(mfs.files, dir+name)
+			}
+			if name != "/other.log" {
+				rc.Sim.Count("fs.sibling_event")
+				nontrivialOp = true
+			}
+			ops = append(ops, fmt.Sprintf("event(%s %s)", op, strings.TrimPrefix(name, "/")))
+			deliver(op, dir+name)
 		}
 		// online check: what was received so far must be a prefix-consistent view
 		want := expect
